@@ -1,4 +1,5 @@
 import RotondaModel.Model.Rib
+import RotondaModel.Model.Session
 /-! Line driver for the RIB model (C01, C02, C03).
     case  `h|<prefixes>|<events>`  →  per prefix `T/F` (include_withdrawn = true / false record lists). -/
 open Rotonda.Rib
@@ -48,9 +49,38 @@ def stepAll (v : Variant) : Outcome → List Update → Outcome
   | .ok r, [] => .ok r
   | .ok r, u :: us => stepAll v (r.step v u) us
 
+/-! Session layer (C02): `s|<k=ptype,flags,dist,addr,asn,bgpid ...>|<U<k> | D<k> ...>` on a router with ingress id 1
+    on a fresh register (next serial 2), as `BmpStepper::new()` builds it → `<k:id ...> | <ids_for_parent ...> | <withdrawn id per D or ->`. -/
+open Rotonda.Session in
+def runSession (hdrs ops : String) : String :=
+  let parseH (t : String) : Option (Nat × Pph) :=
+    match t.splitOn "=" with
+    | [k, f] => match (f.splitOn ",").mapM (·.toNat?) with
+      | some [a, b, c, d, e, g] => do some (← k.toNat?, ⟨a, b, c, d, e, g⟩)
+      | _ => none
+    | _ => none
+  match (words hdrs).mapM parseH with
+  | none => "bad-case"
+  | some hs =>
+    let w0 : World := World.connected ⟨2, [(1, ⟨0, 0, 0, 9⟩)]⟩ 1
+    let go := (words ops).foldl (fun (acc : World × List String) o =>
+      let k := ((o.drop 1).toString.toNat?).getD 0
+      match hs.lookup k with
+      | none => acc
+      | some h =>
+        if o.startsWith "U" then (peerUp acc.1 h, acc.2)
+        else
+          let r := peerDown acc.1 h
+          (r.1, acc.2 ++ [match r.2 with | some id => toString id | none => "-"])) (w0, [])
+    let w := go.1
+    let up := hs.filterMap fun (k, h) => (w.rt.idOf h).map fun id => s!"{k}:{id}"
+    let ids := (disconnectIds w).toArray.qsort (· < ·) |>.toList
+    " ".intercalate up ++ " | " ++ " ".intercalate (ids.map toString) ++ " | " ++ " ".intercalate go.2
+
 def runCase (v : Variant) (line : String) : String :=
   -- an optional 4th field (the scenario that produced the events, for replay) is ignored
   match (line.splitOn "|").take 3 with
+  | ["s", hdrs, ops] => runSession hdrs ops
   | ["h", qs, evs] =>
     match (words qs).mapM parsePrefix, (words evs).mapM (parseEv v) with
     | some qs, some uss =>
